@@ -26,8 +26,8 @@ TInit == Init /\ l = 1
 TNext == /\ l <= Len(Trace)
          /\ LET e == Trace[l]  o == Trace[l].obs IN
             /\ want' = CASE e.op = "create" -> <<>>
-                          [] e.op = "add"    -> [x \in DOMAIN want \cup {e.name.id} |->
-                                                   IF x = e.name.id THEN (IF x \in DOMAIN want THEN want[x] ELSE 0) + e.k ELSE want[x]]
+                          [] e.op = "add"    -> Bump(want, e.name.id, e.k)
+                          [] e.op = "race"   -> Bump(Bump(want, e.xname.id, 1), e.name.id, e.k)   \* both writers' increments must be there
                           [] OTHER           -> want
             /\ metaLen' = o.metaLen /\ hdrLen' = o.hdrLen /\ size' = o.size /\ limit' = o.limit
             /\ heads' = [b \in {o.heads[i].b : i \in DOMAIN o.heads} |-> o.heads[CHOOSE i \in DOMAIN o.heads : o.heads[i].b = b].off]
